@@ -1,4 +1,9 @@
 // C01: incremental builds produce exactly what a clean build produces (end to end, real plz).
+//
+// Part A (model + oracle): histories inside the fragment of Model/Engine.v; every history is one Coq case
+// (all trees, requests and what plz did at every step), and after every step the incremental outputs are
+// compared with a clean build of the same tree in a fresh directory (the oracle, model independent).
+// Part B (oracle only): the full generator of harness/e2e, including output_dirs targets.
 package main
 
 import (
@@ -13,34 +18,65 @@ import (
 
 func main() {
 	lib.Main("C01", func(c *lib.Ctx) {
-		c.Rule("generated repositories (1-3 packages, 2-7 targets: genrules concat/const/copydir/output_dirs/listnames, filegroups, text_files) " +
-			"with edit histories (content edits, renames inside output directories, srcs/outs/cmd changes, comments, adding/removing targets, deleting plz-out); " +
-			"after every edit `plz build` of all targets is compared with a clean build of the same tree in a fresh directory. " +
-			"distinct = distinct (tree, edit) steps; non-trivial = a step after the first whose edit changed the tree")
-		nrepos := c.Scale(12, 300)
-		steps := c.Scale(5, 8)
+		c.Model("From PlzV Require Import Model.Engine.", "Engine.case", "Engine.check")
+		c.Rule("generated repositories (1-3 packages, 2-7 targets: genrules concat/const/copydir/listnames(/fail), filegroups, text_files; part B adds output_dirs) " +
+			"with edit histories (content edits, renames and byte shifts inside output directories, srcs/outs/cmd changes, comments, adding/removing targets, " +
+			"breaking/repairing a command, deleting plz-out, going back to an earlier tree, requesting a subset); after every step the real `plz build` is compared " +
+			"with a clean build of the same tree in a fresh directory, and the whole history is replayed in the Coq model. " +
+			"distinct = distinct histories; non-trivial = a history with at least two steps that changed the tree")
 		base := e2e.Scratch("c01")
 		defer os.RemoveAll(base)
-		all := e2e.RunHistories(c.Rng, base, nrepos, 6, e2e.HistOpts{Gen: e2e.GenOpts{MaxPkgs: 3, MaxTargets: 7, DirOutputs: true}, Steps: steps, CleanRef: true, RmPlzOut: true, Revert: true})
-		for i, hist := range all {
-			for _, st := range hist {
+
+		var replay struct {
+			Spec  *e2e.Spec  `json:"spec"`
+			Specs []*e2e.Spec `json:"specs"`
+		}
+		if c.ReadReplay(&replay) && len(replay.Specs) > 0 {
+			replayHistory(c, base, replay.Specs)
+			return
+		}
+
+		nA := c.Scale(18, 400)
+		steps := c.Scale(5, 7)
+		all := e2e.EngRunHistories(c.Rng, base+"/a", nA, 8, func(i int) e2e.EngOpts {
+			return e2e.EngOpts{MaxPkgs: 2, MaxTargets: 6, Steps: steps, CleanRef: true, Subsets: i%3 == 1, Failures: i%4 == 3,
+				PWipe: 8, PRevert: 15, PNoop: 5, DirHeavy: i%2 == 0}
+		})
+		for i, h := range all {
+			changed := 0
+			for k := range h {
+				st := &h[k]
 				c.Hist("edit", st.Edit.Kind)
 				c.HistN("targets", len(st.Requested))
-				js := map[string]any{"history": i, "step": st.Index, "edit": st.Edit, "exit": st.Exit, "clean_exit": st.CleanExit, "executed": st.Executed, "outputs": st.OutStr, "clean": st.CleanStr}
-				c.Eval(js, fmt.Sprint(st.Spec.Labels(), st.OutStr, st.Edit), st.Index > 0 && st.Edit.Kind != "none")
+				if k > 0 && st.Edit.Kind != "none" {
+					changed++
+				}
+				oracle(c, i, h, k)
+			}
+			c.Case(e2e.EngCaseTerm(h), histJSON(i, h, len(h)-1), e2e.EngKey(h), changed >= 2)
+		}
+
+		// Part B: the lead's first harness, full generator (output_dirs included), oracle only
+		nB := c.Scale(4, 100)
+		allB := e2e.RunHistories(c.Rng, base+"/b", nB, 6, e2e.HistOpts{Gen: e2e.GenOpts{MaxPkgs: 3, MaxTargets: 7, DirOutputs: true}, Steps: steps, CleanRef: true, RmPlzOut: true, Revert: true})
+		for i, hist := range allB {
+			for _, st := range hist {
+				c.Hist("edit-b", st.Edit.Kind)
+				js := map[string]any{"history": i, "part": "B", "step": st.Index, "edit": st.Edit, "exit": st.Exit, "clean_exit": st.CleanExit, "executed": st.Executed, "outputs": st.OutStr, "clean": st.CleanStr}
+				c.Eval(js, fmt.Sprint("B", st.Spec.Labels(), st.OutStr, st.Edit), st.Index > 0 && st.Edit.Kind != "none")
 				c.Oracle()
+				specs := []*e2e.Spec{}
+				for _, s := range hist[:st.Index+1] {
+					specs = append(specs, s.Spec)
+				}
+				js["specs"] = specs
 				if st.Exit != st.CleanExit {
-					c.Fail("exit-status-differs", fmt.Sprintf("incremental exit %d, clean exit %d after %v: %s", st.Exit, st.CleanExit, st.Edit, st.Stderr), withHist(js, hist, st.Index))
+					c.Fail("exit-status-differs", fmt.Sprintf("incremental exit %d, clean exit %d after %v: %s", st.Exit, st.CleanExit, st.Edit, st.Stderr), js)
 					continue
 				}
-				labels := make([]string, 0, len(st.Outputs))
-				for l := range st.Outputs {
-					labels = append(labels, l)
-				}
-				sort.Strings(labels)
-				for _, l := range labels {
+				for _, l := range lib.SortedKeys(st.Outputs) {
 					if ok, why := e2e.OutputsEqual(st.Outputs[l], st.Clean[l]); !ok {
-						c.Fail(classify(st, l), fmt.Sprintf("%s after edit %v: incremental vs clean: %s", l, st.Edit, why), withHist(js, hist, st.Index))
+						c.Fail(e2e.StaleClass(st.Spec, l, st.Outputs, st.Clean), fmt.Sprintf("%s after edit %v: incremental vs clean: %s", l, st.Edit, why), js)
 					}
 				}
 			}
@@ -48,32 +84,76 @@ func main() {
 	})
 }
 
-func withHist(js map[string]any, hist []e2e.Step, upto int) map[string]any {
+func histJSON(i int, h []e2e.EngStep, upto int) map[string]any {
+	specs := []*e2e.Spec{}
 	edits := []e2e.Edit{}
-	for _, s := range hist[:upto+1] {
+	for _, s := range h[:upto+1] {
+		specs = append(specs, s.Spec)
 		edits = append(edits, s.Edit)
 	}
-	js["edits"] = edits
-	js["spec"] = hist[upto].Spec
-	return js
+	st := h[upto]
+	return map[string]any{"history": i, "step": upto, "edits": edits, "specs": specs, "requested": st.Requested, "exit": st.Exit, "clean_exit": st.CleanExit,
+		"executed": st.Executed, "outputs": st.OutStr, "clean": st.CleanStr}
 }
 
-// classify gives the narrow defect class of a stale output.
-func classify(st e2e.Step, label string) string {
-	t := st.Spec.Target(label)
+// oracle: incremental = clean at step k of history h
+func oracle(c *lib.Ctx, i int, h []e2e.EngStep, k int) {
+	st := &h[k]
+	c.Oracle()
+	if (st.Exit == 0) != (st.CleanExit == 0) {
+		c.Fail("exit-status-differs", fmt.Sprintf("incremental exit %d, clean exit %d after %v: %s", st.Exit, st.CleanExit, st.Edit, st.Stderr), histJSON(i, h, k))
+		return
+	}
+	if st.Exit != 0 {
+		return // a failing build: which outputs exist is not part of the statement
+	}
+	labels := make([]string, 0, len(st.Outputs))
+	for l := range st.Outputs {
+		labels = append(labels, l)
+	}
+	sort.Strings(labels)
+	for _, l := range labels {
+		if ok, why := e2e.OutputsEqual(st.Outputs[l], st.Clean[l]); !ok {
+			c.Fail(e2e.StaleClass(st.Spec, l, st.Outputs, st.Clean), fmt.Sprintf("%s after %v: incremental vs clean: %s", l, st.Edit, why), histJSON(i, h, k))
+		}
+	}
+}
+
+// replayHistory re-runs a recorded sequence of trees (build all after each) and applies the oracle.
+func replayHistory(c *lib.Ctx, base string, specs []*e2e.Spec) {
+	repo := e2e.NewRepo(base, "repo")
+	var h []e2e.EngStep
+	for i, s := range specs {
+		repo.Write(s)
+		order := s.Labels()
+		sort.SliceStable(order, func(a, b int) bool { return depth(s, order[a]) < depth(s, order[b]) })
+		h = append(h, e2e.EngBuild(repo, base, s, order, s.Labels(), i, e2e.Edit{Kind: "replay"}, false, e2e.EngOpts{CleanRef: true}))
+		oracle(c, 0, h, i)
+	}
+	modelled := true
+	for _, s := range specs {
+		for _, l := range s.Labels() {
+			t := s.Target(l)
+			if len(t.OutDirs) > 0 || strings.Contains("outdir envdump sleepconcat touchopt", t.Cmd.Op) && t.Cmd.Op != "" {
+				modelled = false
+			}
+		}
+	}
+	if modelled {
+		c.Case(e2e.EngCaseTerm(h), histJSON(0, h, len(h)-1), e2e.EngKey(h), true)
+	}
+}
+
+func depth(s *e2e.Spec, l string) int {
+	t := s.Target(l)
+	d := 0
 	if t == nil {
-		return "stale-output"
+		return 0
 	}
-	switch t.Cmd.Op {
-	case "copydir":
-		return "stale-directory-output-after-entry-rename"
-	case "outdir":
-		return "stale-output-dir-files"
-	case "listnames":
-		return "dependent-of-directory-output-not-rebuilt"
+	for _, x := range e2e.DepsOf(t) {
+		if y := depth(s, x) + 1; y > d {
+			d = y
+		}
 	}
-	if strings.Contains(st.Edit.Kind, "rename") {
-		return "stale-after-rename"
-	}
-	return "stale-output"
+	return d
 }
